@@ -1,11 +1,18 @@
-(* C12, HLL part -- emitted bytes follow the cross-language layout.  Statements only.
+(* C12, HLL part -- emitted bytes follow the cross-language layout.  Statements only; proofs in
+   Proofs/HllLayoutProofs.v.
    Spec/HllLayout.v holds the layout written from the format description (independent of the
    model): constants, [hll_spec_decode], the spec encoders.
    [image_shows lg_k cs s im] (Proofs/HllLayoutProofs.v): the decoded image im has lg_k, the target
-   type of s, the mode of s, and holds exactly the coupons of cs (list / set mode, no duplicates) or
-   the k register values spec_regs lg_k cs j (array mode: read through the Hll4 nibbles + exception
-   list, the Hll6 bit string, the Hll8 bytes).  The writer modelled is the REPAIRED one (COMPACT flag
-   on array images: known_findings.d/C12-hll-array-compact-flag). *)
+   type of s, the mode of s and the out-of-order flag of s (false in list / set mode); it holds
+   exactly the coupons of cs (list / set mode, no duplicates) or, in array mode and for ALL three
+   types, the k register values spec_regs lg_k cs j (read through the Hll4 nibbles + exception list,
+   the Hll6 bit string, the Hll8 bytes), a cur_min byte that is a lower bound of the registers (0 for
+   Hll6 / Hll8) and a num_at_cur_min field equal to the number of registers at cur_min.
+   NOT covered by image_shows: the three binary64 fields hip_accum / kxq0 / kxq1 of the preamble (the
+   decoder returns their bit patterns; they are compared bit for bit by the oracle layout_ok, not by a
+   theorem) and, outside Hll4, the aux count field.
+   The writer modelled is the REPAIRED one (COMPACT flag on array images:
+   known_findings.d/C12-hll-array-compact-flag). *)
 From DS Require Import Base.Prelude Model.Hll Model.HllCodec Spec.HllLayout Proofs.HllBase Proofs.HllArray4 Proofs.HllRefine
   Proofs.HllUnionProofs Proofs.HllCodecProofs Proofs.HllLayoutProofs.
 From DS Require Gen.GenHll Gen.GenCodec.
@@ -14,7 +21,7 @@ Open Scope N_scope.
 (* model_enc_conforms: the independent decoder applied to the image of ANY well-formed sketch (built,
    merged, deserialized; any type / mode / estimator state) recovers its abstract state *)
 Theorem c12_hll_image_conforms :
-  forall lgk arrf cs s, SrcOK lgk arrf cs s -> list_lg_ok s -> a6_wf s ->
+  forall lgk arrf cs s, SrcOK lgk arrf cs s ->
   exists im, hll_spec_decode (hll_serialize s) = Some im /\ image_shows lgk cs s im.
 Proof. exact hll_image_conforms. Qed.
 
@@ -49,15 +56,12 @@ Theorem c12_hll_layout_glue :
   zN GenHll.CUR_MODE_LIST = L_MODE_LIST /\ zN GenHll.CUR_MODE_SET = L_MODE_SET /\ zN GenHll.CUR_MODE_HLL = L_MODE_HLL /\
   zN GenHll.TGT_HLL4 = 0 /\ zN GenHll.TGT_HLL6 = 1 /\ zN GenHll.TGT_HLL8 = 2 /\
   zN GenHll.KEY_BITS_26 = L_KEY_BITS /\ zN GenHll.AUX_TOKEN = L_AUX_TOKEN /\ zN GenHll.COUPON_SIZE_BYTES = 4.
-Proof. repeat split; reflexivity. Qed.
+Proof. exact layout_glue. Qed.
 
 (* the mode byte of the writer is the specification's curMode | tgtType << 2 *)
 Theorem c12_hll_mode_byte :
   forall cur t, cur < 4 -> mode_byte cur t = mode_b cur (tgt_num t).
-Proof.
-  intros cur t H. assert (Hc : cur = 0 \/ cur = 1 \/ cur = 2 \/ cur = 3) by lia.
-  destruct Hc as [ -> | [ -> | [ -> | -> ] ] ]; destruct t; reflexivity.
-Qed.
+Proof. exact mode_byte_spec. Qed.
 
 (* non-vacuity / sanity of the decoder: it inverts the spec encoder on a concrete list image and
    reads a concrete compact Hll4 image with one exception *)
@@ -67,4 +71,4 @@ Example c12_hll_example :
   (exists im, hll_spec_decode (enc_hll_pre true false 4 0 0 1 0 0 0 1 1 ++ [0xF1; 0x11; 0x11; 0x11; 0x11; 0x11; 0x11; 0x11]
                                ++ le_bytes 4 (20 * 67108864 + 1)) = Some im /\
               im_regs im = [2; 20; 2; 2; 2; 2; 2; 2; 2; 2; 2; 2; 2; 2; 2; 2] /\ im_aux im = [(1, 20)]).
-Proof. vm_compute. split; eexists; repeat split; reflexivity. Qed.
+Proof. exact decoder_example. Qed.
